@@ -1180,7 +1180,24 @@ class Ctx:
                 return None
             m = m2
         st.violated += 1
-        self.ex.record_claim(name, 'violated', self, m, detail, formula)
+        # a few more models that differ from the first in every real-valued
+        # input: a counterexample sitting exactly on a rounding tie (where the
+        # exact-real model and CPython differ) need not reproduce natively
+        alts = []
+        blocked = []
+        cur_m = m
+        for _ in range(3):
+            for nm, v in self.inputs.items():
+                if v.sort() == z3.RealSort():
+                    blocked.append(v != cur_m.eval(v, model_completion=True))
+            if not blocked:
+                break
+            r3, m3 = self._check(z3.Not(formula), *blocked)
+            if r3 != z3.sat:
+                break
+            alts.append(self.model_inputs(m3))
+            cur_m = m3
+        self.ex.record_claim(name, 'violated', self, m, detail, formula, alts)
         return False
 
     def model_inputs(self, m):
@@ -1247,13 +1264,13 @@ class Explorer:
         self.path_outcomes = {}
         self.known_filter = None   # callable(name, inputs) -> finding id or None
 
-    def record_claim(self, name, status, ctx, model, detail, formula=None):
+    def record_claim(self, name, status, ctx, model, detail, formula=None, alts=None):
         d = self.claim_names.setdefault(name, {'discharged': 0, 'violated': 0, 'inconclusive': 0})
         d[status] += 1
         if status == 'violated':
             inputs = ctx.model_inputs(model)
             self.violations.append({'claim': name, 'inputs': inputs, 'detail': detail,
-                                    'decisions': len(ctx.decisions)})
+                                    'decisions': len(ctx.decisions), 'alt_inputs': alts or []})
         if len(self.samples) < self.max_samples:
             self.samples.append({
                 'claim': name, 'status': status,
